@@ -1,4 +1,5 @@
 //! C09 — every command acts only with the credential it requires (credential x command x permission matrix).
+use std::collections::BTreeMap;
 use crate::model::pattern_matches;
 use crate::node::{is_refusal, resp_text, Node, Session};
 use crate::report::{enumerate, explore, replay_guarded, Ctx, Outcome, Report};
@@ -24,6 +25,11 @@ pub enum Kind {
 pub enum Cmd {
     AuthOk,
     AuthWrong,
+    /// credentials that are wrong but close to the right ones (a prefix, the right one with something appended,
+    /// missing words, another case, user and password swapped): the session must stay what it was
+    AuthNearMiss { v: u8 },
+    /// the session kind's own credential form with a token that is a prefix of / an extension of / nothing of the right one
+    UseDbNearMiss { db: String, v: u8 },
     /// right = the session kind's own credential for that database
     UseDb { db: String, right: bool },
     /// a use-db in the other credential form (a user session using the two-argument database-token form, any other
@@ -87,6 +93,8 @@ fn cmd_strategy() -> impl Strategy<Value = Cmd> {
     prop_oneof![
         1 => Just(Cmd::AuthOk),
         1 => Just(Cmd::AuthWrong),
+        2 => (0..10u8).prop_map(|v| Cmd::AuthNearMiss { v }),
+        2 => (select(vec!["d", "d", "e"]), 0..4u8).prop_map(|(db, v)| Cmd::UseDbNearMiss { db: db.to_string(), v }),
         4 => (select(vec!["d", "d", "e", "nosuch"]), prop::bool::weighted(0.7)).prop_map(|(db, right)| Cmd::UseDb { db: db.to_string(), right }),
         2 => select(vec!["d", "d", "e", "nosuch"]).prop_map(|db| Cmd::UseDbOtherFormWrong { db: db.to_string() }),
         10 => (select(vec!["get", "get-safe", "set", "set-safe", "remove", "increment", "watch", "unwatch"]), key.clone()).prop_map(|(w, key)| Cmd::Data { word: w.to_string(), key }),
@@ -163,6 +171,31 @@ fn render(kind: &Kind, cmd: &Cmd) -> String {
     match cmd {
         Cmd::AuthOk => format!("auth {} {}", crate::node::USER, crate::node::PWD),
         Cmd::AuthWrong => format!("auth {} nope", crate::node::USER),
+        Cmd::AuthNearMiss { v } => {
+            let (u, p) = (crate::node::USER, crate::node::PWD);
+            match v % 10 {
+                0 => format!("auth {} {}", u, &p[..p.len() - 1]),
+                1 => format!("auth {} {}x", u, p),
+                2 => format!("auth {}", u),
+                3 => "auth".to_string(),
+                4 => format!("auth {} {}", &u[..u.len() - 1], p),
+                5 => format!("auth {}x {}", u, p),
+                6 => format!("auth {} {}", p, u),
+                7 => format!("auth {} {}", u, p.to_uppercase()),
+                8 => format!("auth {} {}", u, &p[..1]),
+                _ => format!("auth {} {}", &u[..1], &p[..1]),
+            }
+        }
+        Cmd::UseDbNearMiss { db, v } => {
+            let right = token_for(kind, db, true);
+            let right = if let Kind::Anon = kind { (if db == "d" { "dtok" } else { "etok" }).to_string() } else { right };
+            match v % 4 {
+                0 => format!("use-db {} {}", db, &right[..right.len() - 1]),
+                1 => format!("use-db {} {}x", db, right),
+                2 => format!("use-db {}", db),
+                _ => format!("use-db {} {}", db, &right[..right.len() - 3]),
+            }
+        }
         Cmd::UseDb { db, right } => format!("use-db {} {}", db, token_for(kind, db, *right)),
         Cmd::UseDbOtherFormWrong { db } => match kind {
             Kind::UserBob | Kind::UserAll => format!("use-db {} not-the-token", db),
@@ -274,7 +307,8 @@ fn step(w: &mut World, kinds: &[Kind], st: &Step, flags: &mut Flags) -> Option<(
             let mut key_of: Option<String> = None;
             let expect = match cmd {
                 Cmd::AuthOk | Cmd::AuthWrong => Expect::Accept,
-                Cmd::UseDbOtherFormWrong { .. } => Expect::Refuse,
+                Cmd::AuthNearMiss { .. } => Expect::Either,
+                Cmd::UseDbOtherFormWrong { .. } | Cmd::UseDbNearMiss { .. } => Expect::Refuse,
                 Cmd::UseDb { db, right } => {
                     let exists = db == "d" || db == "e";
                     let user_exists_there = match kind {
@@ -382,7 +416,7 @@ fn step(w: &mut World, kinds: &[Kind], st: &Step, flags: &mut Flags) -> Option<(
                         if let Cmd::Arbiter = cmd {
                             return Some(("C09|arbiter|user-without-read-grant|accepted".to_string(), format!("{:?} (perms {:?}) sends \"arbiter\" and is registered for conflict notices although it has no read grant at all: {} {:?}", kind, w.bob_perms, resp_text(&r), msgs)));
                         }
-                        if changed || data || matches!(cmd, Cmd::UseDb { .. } | Cmd::UseDbOtherFormWrong { .. } | Cmd::Data { .. } | Cmd::Resolve { .. }) {
+                        if changed || data || matches!(cmd, Cmd::UseDb { .. } | Cmd::UseDbOtherFormWrong { .. } | Cmd::UseDbNearMiss { .. } | Cmd::Data { .. } | Cmd::Resolve { .. }) {
                             return Some((format!("C09|{}|{}|{}", word_of(&line), who, what), format!("{:?} sends {:?}: must be refused, got {} {:?}{}", kind, line, resp_text(&r), msgs, if changed { " and the state changed" } else { "" })));
                         }
                     } else {
@@ -397,7 +431,7 @@ fn step(w: &mut World, kinds: &[Kind], st: &Step, flags: &mut Flags) -> Option<(
                         }
                     }
                     // failed use-db leaves the previous selection in force
-                    if let Cmd::UseDb { .. } | Cmd::UseDbOtherFormWrong { .. } = cmd {
+                    if let Cmd::UseDb { .. } | Cmd::UseDbOtherFormWrong { .. } | Cmd::UseDbNearMiss { .. } = cmd {
                         let now_user = w.sessions[*s].client.selected_db_user_name();
                         if now_user != sel_user {
                             return Some((format!("C09|use-db|{}|failed-use-db-changed-the-session-user", who), format!("{:?}: {:?} failed but the user the session is bound to went {:?} -> {:?}", kind, line, sel_user, now_user)));
@@ -457,6 +491,17 @@ fn step(w: &mut World, kinds: &[Kind], st: &Step, flags: &mut Flags) -> Option<(
                 }
             }
             let _ = (access_kind, key_of);
+            // wrong administrator credentials, however close, leave the session what it was
+            if let Cmd::AuthWrong | Cmd::AuthNearMiss { .. } = cmd {
+                let is_admin_now = w.sessions[*s].client.is_admin_auth();
+                if is_admin_now != ms.auth {
+                    return Some((format!("C09|auth|{}|wrong-credentials-changed-the-session", who), format!("{:?} sends {:?} (not the administrator's credentials): reply {}, the session is {}an administrator afterwards, it was {}one before", kind, line, resp_text(&r), if is_admin_now { "" } else { "not " }, if ms.auth { "" } else { "not " })));
+                }
+                // (an already authenticated session is told "valid auth" whatever it sends: it stays what it was)
+                if !ms.auth && msgs.iter().any(|m| m.contains("valid auth") && !m.contains("invalid auth")) {
+                    return Some((format!("C09|auth|{}|wrong-credentials-answered-valid", who), format!("{:?} sends {:?}: pushed {:?}", kind, line, msgs)));
+                }
+            }
             None
         }
     }
@@ -545,6 +590,103 @@ fn matrix() -> Vec<Case> {
     out
 }
 
+// ------------------------------------------------------------------ requests over HTTP
+// An HTTP request is a session of its own: what a request without the administrator's credentials gets must not
+// depend on the administrator requests the same server (and its four worker threads) served before. Twin servers with
+// the same data; one of them serves administrator requests first; every reply and both data sets must stay equal.
+
+#[derive(Clone, Debug, Serialize, Deserialize)]
+pub struct HttpCase {
+    /// "none" | "dbtoken" | "bob" | "wrongtoken"
+    pub login: String,
+    pub lines: Vec<String>,
+}
+
+pub struct HttpTwin {
+    pub served_admins: (Node, u16),
+    pub pristine: (Node, u16),
+}
+
+fn http_data_lines() -> Vec<&'static str> {
+    vec!["get a", "set a by-http", "remove c", "increment n 2", "keys *", "get $$secret", "set-safe a 90 x", "watch a", "arbiter", "resolve 77 d a 0 v-resolve"]
+}
+
+pub fn http_case_strategy() -> impl Strategy<Value = HttpCase> {
+    let mut pool: Vec<&'static str> = admin_lines();
+    pool.extend(cluster_lines());
+    pool.extend(http_data_lines());
+    (select(vec!["none", "dbtoken", "bob", "wrongtoken"]), prop::collection::vec(select(pool), 1..4)).prop_map(|(l, lines)| HttpCase { login: l.to_string(), lines: lines.into_iter().map(|s| s.to_string()).collect() })
+}
+
+pub fn start_http_twin(ctx: &Ctx) -> HttpTwin {
+    let mk = |name: &str| {
+        let dir = ctx.scratch.join(name).to_str().unwrap().to_string();
+        std::fs::create_dir_all(&dir).unwrap();
+        let mut node = Node::boot_single(&dir);
+        let mut admin = Session::new();
+        admin.auth(&node);
+        admin.send(&node, "create-db d dtok");
+        admin.send(&node, "use-db d dtok");
+        for (k, v) in [("a", "1"), ("c", "4"), ("n", "7"), ("$$secret", "s3cr3t")] {
+            admin.send(&node, &format!("set {} {}", k, v));
+        }
+        admin.send(&node, "create-user bob bobtok");
+        admin.send(&node, "set-permissions bob r a*");
+        admin.send(&node, "unwatch-all");
+        admin.client.left(&node.dbs);
+        node.pump();
+        crate::transport::run_services_in_background(&mut node);
+        let port = crate::transport::start_http(node.dbs.clone());
+        (node, port)
+    };
+    HttpTwin { served_admins: mk("http-admins"), pristine: mk("http-pristine") }
+}
+
+fn strip_volatile(d: BTreeMap<String, BTreeMap<String, (String, i32, bool)>>) -> BTreeMap<String, BTreeMap<String, (String, i32, bool)>> {
+    d.into_iter().map(|(db, m)| (db, m.into_iter().filter(|(k, _)| k != "$connections").collect())).collect()
+}
+
+pub fn run_http_case(twin: &HttpTwin, case: &HttpCase) -> Outcome {
+    let mut out = Outcome::ok(true);
+    out.classes.push("over-http");
+    // more administrator requests than the server has workers (read-only: the twins keep the same data)
+    for _ in 0..6 {
+        let body = format!("auth {} {}; use-db d dtok; get a; cluster-state", crate::node::USER, crate::node::PWD);
+        if crate::transport::http_post(twin.served_admins.1, &body).is_err() {
+            eprintln!("C09 http engine: administrator request failed");
+            out.nontrivial = false;
+            return out;
+        }
+    }
+    let login = match case.login.as_str() {
+        "dbtoken" => "use-db d dtok; ",
+        "bob" => "use-db d bob bobtok; ",
+        "wrongtoken" => "use-db d nope; ",
+        _ => "",
+    };
+    let body = format!("{}{}", login, case.lines.join("; "));
+    let before = strip_volatile(twin.served_admins.0.dump());
+    let side_before = side_state(&twin.served_admins.0);
+    let ra = crate::transport::http_post(twin.served_admins.1, &body).map(|(s, b)| format!("{} | {}", s, b)).unwrap_or_else(|e| format!("ERR {}", e.split(':').next().unwrap_or("")));
+    let rb = crate::transport::http_post(twin.pristine.1, &body).map(|(s, b)| format!("{} | {}", s, b)).unwrap_or_else(|e| format!("ERR {}", e.split(':').next().unwrap_or("")));
+    let word = word_of(case.lines.last().map(|s| s.as_str()).unwrap_or(""));
+    // cluster-state style answers carry the node's own port: compare with the ports masked
+    let mask = |s: &str, port: u16| s.replace(&port.to_string(), "<port>");
+    if mask(&ra, twin.served_admins.1) != mask(&rb, twin.pristine.1) {
+        out.fail = Some((format!("C09|over-http|reply-depends-on-earlier-administrator-requests|{}", word), format!("request {:?} ({}): a server that served administrator requests before answers\n  {}\nits twin that never did answers\n  {}", body, case.login, ra, rb)));
+        return out;
+    }
+    let (da, db) = (strip_volatile(twin.served_admins.0.dump()), strip_volatile(twin.pristine.0.dump()));
+    if da != db {
+        out.fail = Some((format!("C09|over-http|state-depends-on-earlier-administrator-requests|{}", word), format!("request {:?} ({}): the twins' data differ afterwards; before on the first {:?}, after {:?}, twin {:?}", body, case.login, before, da, db)));
+        return out;
+    }
+    if side_state(&twin.served_admins.0) != side_before {
+        out.fail = Some((format!("C09|over-http|node-state-changed|{}", word), format!("request {:?} ({}): cluster/snapshot/pending state {:?} -> {:?}", body, case.login, side_before, side_state(&twin.served_admins.0))));
+    }
+    out
+}
+
 fn install_link_sink() {
     // `join` from an authenticated session would open a replication link: hand it to a sink
     fn sink(_k: &'static str, _p: &str, _l: &str, _d: &std::sync::Arc<nundb::bo::Databases>, _r: futures::channel::mpsc::Receiver<String>) -> Option<futures::channel::mpsc::Receiver<String>> {
@@ -561,10 +703,19 @@ pub fn run(ctx: &Ctx, rep: &mut Report) {
     if rep.failures.is_empty() {
         enumerate(ctx, rep, "single-command-matrix", matrix().into_iter(), |c| run_case(ctx, c));
     }
+    if rep.failures.is_empty() {
+        let twin = start_http_twin(ctx);
+        let n = ctx.amount(1200, 40_000);
+        explore(ctx, rep, "requests-over-http", n, http_case_strategy(), |c| run_http_case(&twin, c));
+    }
 }
 
-pub fn replay(ctx: &Ctx, _engine: &str, case: &J) -> Result<Option<(String, String)>, String> {
+pub fn replay(ctx: &Ctx, engine: &str, case: &J) -> Result<Option<(String, String)>, String> {
     crate::interpose::virtual_clock(true);
     install_link_sink();
+    if engine == "requests-over-http" {
+        let twin = start_http_twin(ctx);
+        return replay_guarded::<HttpCase>(ctx, case, |c| run_http_case(&twin, c));
+    }
     replay_guarded::<Case>(ctx, case, |c| run_case(ctx, c))
 }
